@@ -47,3 +47,10 @@ Definition toy_codemod (id : N) (k : pipe_kind) (d : det_kind) : codemod :=
 Definition toy_cfg (dry : bool) (files : list path) : config :=
   {| dry_run := dry; all_files := files; ff_paths := files; scan_all := files |}.
 Definition toy_run (tb : run_tables) (cfg : config) := run tb bytes toy_parse toy_code toy_T toy_S toy_R toy_diff toy_W toy_fsel cfg.
+
+(** the table value of the pinned tree, used by the non-vacuity [Example]s (which must not depend on the current source) *)
+Definition tables_pinned : run_tables :=
+  {| t_libcst := [TryParse; TryTransform; IfNoChanges; IfNoDiff; IfNotDryWrite];
+     t_regex := [IfNoChanges; IfNotDryWrite];
+     t_xml := [TryParse; TryTransform; IfNoChanges; IfNotDryWrite];
+     t_writers := [(SReqTxt, true); (SToml, true); (SSetupPy, true); (SSetupCfg, true)] |}.
